@@ -160,8 +160,12 @@ func (p *Prog) Field(pkg, typ, field string) *types.Var {
 	}
 	for i := 0; i < st.NumFields(); i++ {
 		if st.Field(i).Name() == field {
+			p.recordField(pkg, typ, field, st, i)
 			return st.Field(i)
 		}
+	}
+	if f := p.fieldFallback(pkg, typ, field, st); f != nil {
+		return f
 	}
 	Undecidedf("anchor: field %s.%s.%s not found", pkg, typ, field)
 	return nil
@@ -183,10 +187,11 @@ func (p *Prog) TryField(pkg, typ, field string) *types.Var {
 	}
 	for i := 0; i < st.NumFields(); i++ {
 		if st.Field(i).Name() == field {
+			p.recordField(pkg, typ, field, st, i)
 			return st.Field(i)
 		}
 	}
-	return nil
+	return p.fieldFallback(pkg, typ, field, st)
 }
 
 // MethodObj returns the *types.Func of method name on named type (value or pointer receiver) or interface.
@@ -197,9 +202,14 @@ func (p *Prog) MethodObj(pkg, typ, name string) *types.Func {
 		obj, _, _ = types.LookupFieldOrMethod(n, true, n.Obj().Pkg(), name)
 	}
 	f, ok := obj.(*types.Func)
+	key := "m|" + pkg + "|" + typ + "|" + name
 	if !ok {
+		if fb := p.funcFallback(key, p.methodCands(n)); fb != nil {
+			return fb
+		}
 		Undecidedf("anchor: method %s.%s.%s not found", pkg, typ, name)
 	}
+	p.recordFunc(key, f, p.methodNames(n))
 	return f
 }
 
@@ -218,11 +228,18 @@ func (p *Prog) TryMethodObj(pkg, typ, name string) (f *types.Func) {
 
 // FuncObj returns the package-level function object.
 func (p *Prog) FuncObj(pkg, name string) *types.Func {
-	o := p.TPkg(pkg).Scope().Lookup(name)
+	tp := p.TPkg(pkg)
+	o := tp.Scope().Lookup(name)
 	f, ok := o.(*types.Func)
+	key := "f|" + pkg + "|" + name
+	names, cands := p.pkgFuncNames(tp)
 	if !ok {
+		if fb := p.funcFallback(key, cands); fb != nil {
+			return fb
+		}
 		Undecidedf("anchor: func %s.%s not found", pkg, name)
 	}
+	p.recordFunc(key, f, names)
 	return f
 }
 
@@ -232,6 +249,12 @@ func (p *Prog) TryFuncObj(pkg, name string) *types.Func {
 		return nil
 	}
 	f, _ := pk.Types.Scope().Lookup(name).(*types.Func)
+	key := "f|" + pkg + "|" + name
+	names, cands := p.pkgFuncNames(pk.Types)
+	if f == nil {
+		return p.funcFallback(key, cands)
+	}
+	p.recordFunc(key, f, names)
 	return f
 }
 
